@@ -20,15 +20,20 @@ TIERS = {
                  "det_fresh": 40, "min_s": 120},
 }
 RULE = ("each evaluation is one seeded history of 3-30 session commands "
-        "(define/assign/append/read/function call/failing expression/"
-        "syntax error/aborted loop/require in every import form of good, "
-        "missing, broken, failing, dependency-missing and circular user "
-        "modules/caller-supplied environment/ls probe/heal/repeat) against "
-        "1-2 interleaved real Interpreter instances on a simulated module "
-        "store, with planned failures and injected store/stream faults; "
-        "distinct = distinct (command-kind sequence, instance schedule, "
-        "fault sequence) fingerprints; non-trivial = at least one command "
-        "failed and at least one later command was checked after it")
+        "(define/assign/append/in-place string change/read/function "
+        "(re)definition and call chains/failing expression/multi-statement "
+        "command failing in the middle/syntax error/aborted loop/fail storm/"
+        "require in every import form of good, missing, broken, failing, "
+        "dependency-missing, guarded-dependency and circular user modules/"
+        "module files appearing and disappearing/caller-supplied (also "
+        "nested, also foreign) environment/ls probe/heal/clock jump/repeat/"
+        "verbatim re-issue) against 1-2 interleaved real Interpreter "
+        "instances - through direct interpret calls or through the real REPL "
+        "loop - on a simulated module store, with planned failures and "
+        "injected store/stream faults; distinct = distinct (command-kind "
+        "sequence, instance schedule, fault sequence) fingerprints; "
+        "non-trivial = at least one command failed and at least one later "
+        "command was checked after it")
 REAL = ["ckl.lexer", "ckl.parser", "ckl.nodes", "ckl.functions",
         "ckl.values", "ckl.interpreter.Interpreter", "bundled .ckl modules"]
 STUBBED = ["file system (real-backed virtual FS under /sim)",
@@ -47,11 +52,13 @@ REQUIRED_PROBES = {
     "quick": ["failed_then_later_checked", "require_after_failed_require",
               "faulted_require_then_retry", "cached_module_path",
               "two_instances", "scratch_env", "repeat_checked",
-              "env_moved_between_instances", "repl_commands"],
+              "env_moved_between_instances", "repl_commands",
+              "store_changed_mid_session", "deep_caller_env"],
     "thorough": ["failed_then_later_checked", "require_after_failed_require",
                  "faulted_require_then_retry", "cached_module_path",
                  "two_instances", "scratch_env", "repeat_checked",
-                 "env_moved_between_instances", "repl_commands"],
+                 "env_moved_between_instances", "repl_commands",
+                 "store_changed_mid_session", "deep_caller_env"],
 }
 
 SYNTAX_ERRORS = ["def x_bad = ;", "1 +", "do 1; 2", "def = 5", "[1, 2",
@@ -89,10 +96,15 @@ class Gen:
         ir.append(["deffn", "peek", [], [["ret", ["v", "_cnt"]]]])
         ir.append(["def", "val", rng.randrange(100, 999)])
         for d in deps:
-            form = rng.choice(["plain", "plain", "as"])
+            form = rng.choice(["plain", "plain", "as", "guarded"])
             if form == "plain":
                 ir.append(["req", "plain", {"id": d}, None])
                 ir.append(["def", "dval_" + d, ["mget", d, "val"]])
+            elif form == "guarded":
+                # the module survives a failing (e.g. circular) dependency
+                ir.append(["blk", [["req", "plain", {"id": d}, None],
+                                   ["mark", "DEP-OK " + mid]],
+                           [[None, [["mark", "DEP-FAILED " + mid]]]], None])
             else:
                 ir.append(["req", "as", {"id": d}, "dep_" + d])
                 ir.append(["def", "dval_" + d, ["mget", "dep_" + d, "val"]])
@@ -209,6 +221,7 @@ def gen_case(rng, tier, k):
         host = "repl"          # the real REPL loop is the host
     case = {"config": {"instances": insts, "store": store,
                        "share_env": share_env, "host": host,
+                       "deep_env": rng.random() < 0.5,
                        "prng": round(rng.random(), 6)},
             "files": files, "ops": []}
 
@@ -479,7 +492,28 @@ def gen_case(rng, tier, k):
             kind = rng.choice(
                 ["state", "state", "read", "fn", "call", "fail", "multifail",
                  "syntax", "loopabort", "require", "require", "require",
-                 "moduse", "moduse", "sentinel"])
+                 "moduse", "moduse", "sentinel", "failstorm", "appear"])
+            if kind == "appear":
+                # a module that was missing appears in the store (or a
+                # present one disappears) between two commands
+                d = (store["paths"] or [MOD_HOME])[0] \
+                    if loc not in ("home", "both") else MOD_HOME
+                if rng.random() < 0.7:
+                    mid = rng.choice(missing)
+                    ir = g.module_ir(mid)
+                    op = {"kind": "putfile", "path": f"{d}/{mid}.ckl",
+                          "ir": ir}
+                    mstore.files[op["path"]] = {"ir": ir}
+                    mods[mid] = ir
+                    kinds[mid] = "good"
+                else:
+                    cands = sorted(pth for pth in mstore.files
+                                   if "/zs." not in pth)
+                    pth = rng.choice(cands)
+                    op = {"kind": "rmfile", "path": pth}
+                    mstore.files.pop(pth, None)
+                case["ops"].append(op)
+                continue
             if kind == "state":
                 for _ in range(rng.randrange(1, 4)):
                     stmts.append(gen_state_stmt(scope))
@@ -544,6 +578,21 @@ def gen_case(rng, tier, k):
             elif kind == "sentinel":
                 stmts.append(["req", "plain", {"id": "zs"}, None])
                 stmts.append(["expr", ["mget", "zs", "val"]])
+            elif kind == "failstorm":
+                # many failures unwinding through nested function calls in
+                # one command, each handled; afterwards calls still work
+                stmts.append(["deffn", "f_s1", ["p"],
+                              [["if", ["op", ">", ["v", "p"], 0],
+                                [["expr", ["call", "f_s1",
+                                           [["op", "-", ["v", "p"], 1]]]]],
+                                None],
+                               gen_fail_stmt(), ["ret", 0]]])
+                stmts.append(["def", "i_storm", 0])
+                stmts.append(["for", "k_s", ["l", list(range(
+                    rng.choice([5, 30, 45])))],
+                    [["blk", [["expr", ["call", "f_s1", [3]]]],
+                      [[None, [["cset", "i_storm", "+", 1]]]], None]]])
+                stmts.append(["expr", ["v", "i_storm"]])
             op = {"kind": "cmd", "inst": inst, "env": env, "stmts": stmts,
                   "faults": []}
             # faults that strike inside this very command
